@@ -73,8 +73,8 @@ def applyBin (op : BinOp) (a b : Val) : Except Err Val :=
       | .floordiv => if y = 0 then .error .pyError else .ok (.int (Int.fdiv x y))
       | .mod => if y = 0 then .error .pyError else .ok (.int (Int.fmod x y))
       | .pow => if y < 0 then .error .pyError else .ok (.int (natPow x y.toNat))     -- negative exponent gives a float: outside the model
-      | .shl => if y < 0 then .error .pyError else .ok (.int (x * natPow 2 y.toNat))
-      | .shr => if y < 0 then .error .pyError else .ok (.int (Int.fdiv x (natPow 2 y.toNat)))
+      | .shl => if y < 0 then .error .value else .ok (.int (x * natPow 2 y.toNat))
+      | .shr => if y < 0 then .error .value else .ok (.int (Int.fdiv x (natPow 2 y.toNat)))
     | _, _ => .error .value      -- "unsupported operand type"
 
 def cmpInt (op : CmpOp) (x y : Int) : Bool :=
